@@ -393,6 +393,11 @@ func runC15(w *World, r *Report) {
 	r.Rule("C15.static-values-per-run", "the stream form of a node's static values is created inside the per-run handler, not once at compile time (shared with C04.no-compile-time-stream): a pipe-backed stream is single-use, so a second stream-mode run of the compiled workflow would lack the values", 1)
 	noCompileTimeStream(w, r, "C15.static-values-per-run")
 
+	r.Rule("C15.make-slice-kind", "every reflect.MakeSlice on a type taken from a declared node / field type is reached only for kind Slice (arrays are instantiated with reflect.New)", 2)
+	if n := ruleMakeSliceKind(w, r, "C15.make-slice-kind", "compose", "internal"); n < 2 {
+		r.Fail("C15.make-slice-kind", "reflect.MakeSlice call sites", w.Fn("compose", "newInstanceByType").Pos(), fmt.Sprintf("%d found (floor 2)", n))
+	}
+
 	// ---- a map entry held by value is a copy: it is stored back after the assignment below it
 	r.Rule("C15.entry-stored-back", "assignOne: the pending (map, key, entry) triple is kept until the assignment is done and the ENTRY is what is stored back under the key", 1)
 	entryStoredBackCheck(w, r, "C15.entry-stored-back")
